@@ -7,7 +7,7 @@ ALL = ["C%02d" % i for i in range(1, 21)]
 CHECKS = {
  "C06": ("fault_enumeration", "E3-faults",
    "exhaustive single-fault (thorough: + pair) enumeration over generated seed files, every entry point, in sandboxed worker processes with panic hook, limiting allocator and watchdog",
-   "Every byte offset of every part (inflated zip members re-zipped with valid CRCs, raw zip bytes, the BIFF8 Workbook stream re-wrapped in a valid compound file, raw compound-file bytes incl. header/FAT/directory, the decompressed VBA dir stream re-compressed, a compressed module stream) of 5 (thorough 10) seed workbooks x 14 byte/field operators (+ numeric and cell-reference replacement in XML, deletion of each member; thorough: all pairs of 5 field-sized overwrites in the first 160 bytes of binary parts) = 224 k (2.08 M) faulted files, each run through new(), ranges under two header options, formulas, worksheets(), metadata, VBA, merge cells / tables (one beside the used cells) / range_ref and auto-detection. Panics (overflow checks on), single allocations above max(64 MiB, 4096 x input), 4 GiB live, and 10 s stalls are violations keyed by panic location / allocating source line (in XML parts qualified by the element and attribute the fault sits in); the sites reachable on the pinned tree are listed one by one in KNOWN_FINDINGS.txt, any other site fails the check.",
+   "Every byte offset of every part (inflated zip members re-zipped with valid CRCs, raw zip bytes, the BIFF8 Workbook stream re-wrapped in a valid compound file, raw compound-file bytes incl. header/FAT/directory, the decompressed VBA dir stream re-compressed, a compressed module stream) of 5 (thorough 10) seed workbooks x 14 byte/field operators (+ numeric and cell-reference replacement in XML, deletion of each member; thorough: all pairs of 5 field-sized overwrites in the first 160 bytes of binary parts) = 224 k (2.08 M) faulted files, each run through new(), ranges under two header options, formulas, worksheets(), metadata, VBA, merge cells / tables (one beside the used cells) / range_ref and auto-detection. Panics (overflow checks on), single allocations above max(64 MiB, 4096 x input), 4 GiB live, and 10 s stalls are violations keyed by panic location / allocating source line (in XML parts qualified by the element and attribute the fault sits in); the sites reachable on the pinned tree are listed one by one in KNOWN_FINDINGS.txt, any other site fails the check. The seed workbooks themselves (an ods sheet whose used block starts in column H with a blank row inside, a VBA module stored as a raw chunk, ...) are run unfaulted as well and must read without any panic or blow-up; that baseline is not subject to the known list.",
    "Trusted: the fault operators and seeds; 'time proportional to input' is approximated by the stall watchdog, 'memory proportional' by the allocator thresholds; arbitrary multi-fault combinations are not covered.",
    "DESIGN.md §2 C06"),
  "C07": ("model_checking", "E2-bfs",
@@ -17,7 +17,7 @@ CHECKS = {
    "DESIGN.md §2 C07"),
  "C20": ("model_checking", "E1-choice",
    "stateless choice-tree exploration of encrypted containers (OOXML-in-CFB, BIFF8 FILEPASS, ods manifests) and of unencrypted workbooks on the real readers",
-   "Encrypted OOXML packages (6 sizes around the mini-stream cutoff, 4 EncryptionInfo variants, DataSpaces storage or not) in CFB layouts (v3/v4, 5 sector orders, directory variations, stale bytes after name terminators) opened with Xlsx and Xlsb (reader positioned at the start, behind the magic bytes or at the end); BIFF workbooks with FILEPASS of 5 kinds (BIFF8 RC4, XOR, CryptoAPI v2/v4; the 4-byte BIFF5 XOR form in a Book stream) at both legal positions with garbled record bodies; ods manifests with encryption-data on the first, a middle, the last, all or several of 3-5 entries, with or without a leading manifest:keyinfo element: a 15.7 MB package (two DIFAT sectors, directory behind sector 30208) in three sector orders, chains owning spare sectors: every one must fail with the reader's Password error. Conversely unencrypted xlsx (every C01 encoding), xlsb, xls (CFB layouts, extra streams, WRITEPROTECT, PROTECT + PASSWORD verifier) and ods workbooks whose names and strings spell the trigger words must open. Full product for ods (thorough: all families), <=4 deviations otherwise.",
+   "Encrypted OOXML packages (6 sizes around the mini-stream cutoff, 6 EncryptionInfo variants (standard, agile, oversized, absent, extensible 3.3 / 4.3), DataSpaces storage or not) in CFB layouts (v3/v4, 5 sector orders, directory variations, stale bytes after name terminators) opened with Xlsx and Xlsb (reader positioned at the start, behind the magic bytes or at the end); BIFF workbooks with FILEPASS of 5 kinds (BIFF8 RC4, XOR, CryptoAPI v2/v4; the 4-byte BIFF5 XOR form in a Book stream) at both legal positions with garbled record bodies; ods manifests with encryption-data on the first, a middle, the last, all or several of 3-5 entries, with or without a leading manifest:keyinfo element, with or without comments between and inside the entries: a 15.7 MB package (two DIFAT sectors, directory behind sector 30208) in three sector orders, chains owning spare sectors: every one must fail with the reader's Password error. Conversely unencrypted xlsx (every C01 encoding), xlsb, xls (CFB layouts, extra streams, WRITEPROTECT, PROTECT + PASSWORD verifier) and ods workbooks whose names and strings spell the trigger words must open. Full product for ods (thorough: all families), <=4 deviations otherwise.",
    "Trusted: the container writers; ciphertext is pseudo-random.",
    "DESIGN.md §2 C20"),
  "C18": ("model_checking", "E1-choice",
@@ -37,22 +37,22 @@ CHECKS = {
    "DESIGN.md §2 C14"),
  "C17": ("model_checking", "E1-choice",
    "stateless choice-tree exploration of merged-region sets and table geometries through every API path of the real xlsx / xls readers",
-   "Workbooks with 1-2 sheets, 0-3 merged regions per sheet drawn in every order from five regions (A1 to the last rows/columns of the format; xls also split over two MERGECELLS records), and for xlsx 0-2 tables at 5 placements relative to the used range x header 0/1 x totals 0/1 x totalsRowShown absent/1/0 x .rels attribute order x indentation x explicit default counts x table parts with autoFilter / calculated column / tableStyleInfo / x14:table alt text x either sheet x a second sheet that holds merged regions but no values x prefix, all choice vectors with <=5 (thorough 8) deviations; worksheet_merge_cells(_at), load_merged_regions + merged_regions(_by_sheet), load_tables, table_names(_in_sheet), table_by_name(_ref) are compared with the declared geometry and the model values.",
+   "Workbooks with 1-2 sheets, 0-3 merged regions per sheet drawn in every order from five regions (A1 to the last rows/columns of the format; xls also split over two MERGECELLS records), and for xlsx 0-2 tables at 5 placements relative to the used range x header 0/1 x totals 0/1 x totalsRowShown absent/1/0 x .rels attribute order x indentation x explicit default counts x table parts under xl/tables or another folder x table parts with autoFilter / calculated column / tableStyleInfo / x14:table alt text x either sheet x a second sheet that holds merged regions but no values x prefix, all choice vectors with <=5 (thorough 8) deviations; worksheet_merge_cells(_at), load_merged_regions + merged_regions(_by_sheet), load_tables, table_names(_in_sheet), table_by_name(_ref) are compared with the declared geometry and the model values.",
    "Trusted: gen/xlsx.rs, gen/biff8.rs; tables keep at least one data row.",
    "DESIGN.md §2 C17"),
  "C08": ("model_checking", "E2-bfs",
    "exhaustive enumeration of option histories (depth <= 3 over 12 options, depth 4 over 4/12) x all row patterns x four formats on real readers vs the statement",
-   "For every subset of rows 0..4 being non-empty (32 patterns) plus a sheet occupying the last two rows of the grid, two column offsets and all four formats (xlsx and xlsb also with an out-of-date advisory dimension record, xlsx also with rows and cells without r attributes, ods also with rows inside table:table-header-rows / table:table-rows, xls also with blank-string formula results alone on the first and last used row), every history of <=3 header-row settings over FirstNonEmptyRow and Row(n), n in {0..6, 65535, 65536, 1048576, u32::MAX}, and every history of 4 over a 4-option subset (thorough: all 12), is run on one reader with a read after every step; each read must not panic, start at row n iff data exists at or below n (else be empty), agree cell-by-cell with the default read at every position >= n and contain nothing else.",
+   "For every subset of rows 0..4 being non-empty (32 patterns) plus a sheet occupying the last two rows of the grid, two column offsets and all four formats (xlsx and xlsb also with an out-of-date advisory dimension record, xlsx also with rows and cells without r attributes, ods also with rows inside table:table-header-rows / table:table-rows, xls also with blank-string formula results alone on the first and last used row), every history of <=3 header-row settings over FirstNonEmptyRow and Row(n), n in {0..6, 65535, 65536, 1048576, u32::MAX}, and every history of 4 over a 4-option subset (thorough: all 12), is run on one reader with a read after every step; each read must not panic, start at row n iff data exists at or below n (else be empty), agree cell-by-cell with the default read at every position >= n and contain nothing else. The same statement is checked on every sheet of every fixture workbook under the repository's tests/ directory, with the sheet's own default read as the model.",
    "Trusted: the four writers and the statement-level oracle in props/c08.rs; columns of the returned range are not constrained.",
    "DESIGN.md §2 C08"),
  "C16": ("model_checking", "E1-choice",
    "stateless choice-tree exploration of workbook metadata (sheet lists, names, visibility, kinds, defined names, date system) in four formats on the real readers",
-   "Workbooks with 0-3 sheets over 9 names (XML specials, quotes, non-ASCII, a C1 control character, astral, 31 characters), every visibility and every sheet kind the format can express, 0-2 reference-valued defined names (pointing at B2 or at the last cell of the sheet), xlsb relationship ids with non-ASCII letters, both date systems with a date cell on every worksheet, xlsx prefix / xls name packing / ods table:name attribute last / ods style-name collisions across families / ods table:dde-links with an unnamed table / xlsx defined-name text split by a comment / .rels attribute order / indented documents / xls substreams in reverse of BoundSheet8 order / a formula-less name record first (xls, xlsb): all choice vectors with <=3 (thorough 5) deviations plus the full product over one-sheet workbooks; sheet_names, sheets_metadata, defined_names and the date cells (xls: NUMBER or RK integer /100) are compared exactly and in order, and must be the same through content auto-detection.",
+   "Workbooks with 0-3 sheets over 9 names (XML specials, quotes, non-ASCII, a C1 control character, astral, 31 characters), every visibility and every sheet kind the format can express, 0-2 reference-valued defined names (pointing at B2 or at the last cell of the sheet), xlsb relationship ids with non-ASCII letters, both date systems with a date cell on every worksheet, xlsx prefix / xls name packing / ods table:name attribute last / ods style-name collisions across families / ods table:dde-links with an unnamed table / xlsx defined-name text split by a comment / xlsx workbook part with calcPr and an extLst holding x15:workbookPr / .rels attribute order / indented documents / xls substreams in reverse of BoundSheet8 order / a formula-less name record first (xls, xlsb): all choice vectors with <=3 (thorough 5) deviations plus the full product over one-sheet workbooks; sheet_names, sheets_metadata, defined_names and the date cells (xls: NUMBER or RK integer /100) are compared exactly and in order, and must be the same through content auto-detection.",
    "Trusted: the four writers; defined names are reference-valued only.",
    "DESIGN.md §2 C16"),
  "C10": ("model_checking", "E1-choice",
    "complete enumeration of all number-format token sequences up to length 3/5 through the real classifier vs a token-level reference + full product of style tables x number encodings x date systems in three formats",
-   "(a) all 179 k (thorough 560 M) sequences over a 56-token alphabet (incl. escaped escape characters) of the number-format grammar are classified by the real detect_custom_number_format and compared with a token-level reference (first section only; literals, escapes and bracket prefixes do not count); every built-in id 0-22, 37-49 through both lookup functions. (b) the full product (about 16 k files) of 14 style kinds, 5 serials, both date systems, XF position, out-of-range style index, General xf entries without numFmtId and applyNumberFormat 1/absent/0 (xlsx), the fPhShow bit (xlsb), FORMAT strings stored 8- or 16-bit (xls) and every number encoding of xlsx / xls / xlsb is read end to end: variant, flavour, serial and is_1904 must match.",
+   "(a) all 179 k (thorough 560 M) sequences over a 56-token alphabet (incl. escaped escape characters) of the number-format grammar are classified by the real detect_custom_number_format and compared with a token-level reference (first section only; literals, escapes and bracket prefixes do not count); every built-in id 0-22, 37-49 through both lookup functions. (b) the full product (about 16 k files) of 14 style kinds, 5 serials, both date systems, XF position, out-of-range style index, General xf entries without numFmtId, applyNumberFormat 1/absent/0 and the optional elements Excel appends to workbook.xml (calcPr, extLst with x15:workbookPr) (xlsx), the fPhShow bit (xlsb), FORMAT strings stored 8- or 16-bit (xls) and every number encoding of xlsx / xls / xlsb is read end to end: variant, flavour, serial and is_1904 must match.",
    "Trusted: the token classes of props/c10.rs; token sequences mixing General/@ with date tokens, digit placeholders or separators, and elapsed tokens after a date token, are outside the grammar and skipped; locale-dependent built-in ids not asserted.",
    "DESIGN.md §2 C10"),
  "C19": ("model_checking", "E1-choice",
@@ -67,12 +67,12 @@ CHECKS = {
    "DESIGN.md §2 C02"),
  "C03": ("model_checking", "E1-choice",
    "stateless choice-tree exploration of BIFF12 sheets x record kinds x ignorable-record interleavings on the real reader",
-   "Sheets with <=2 cells of ~70 kinds (every exact RK encoding, Real, Isst, St, Bool, Error, all four BrtFmla* kinds, zero-length constant and cached strings, /100 RK floats sensitive to the rounding of the division), bulk inside the skipped blocks before the sheet data (records crossing the reader's buffer refills), the fPhShow bit of the Cell structure set or not, the reference count of the string table equal to / below / above its item count, relationship ids with non-ASCII letters, at three anchors incl. the last row/column, with an ignorable record of 7 kinds and 6 payload lengths (1-, 2- and 3-byte length prefixes, 1- and 2-byte ids) at every gap, blank cells and optional pre-sheet-data blocks; shared-string tables of 65535..66000 strings with indices above 16 bits; all choice vectors with <=2 (thorough 3) deviations; worksheet_range and worksheet_range_ref compared with the model and with each other.",
+   "Sheets with <=2 cells of ~70 kinds (every exact RK encoding, Real, Isst, St, Bool, Error, all four BrtFmla* kinds, zero-length constant and cached strings, /100 RK floats sensitive to the rounding of the division), bulk inside the skipped blocks before the sheet data (records crossing the reader's buffer refills), the fPhShow bit of the Cell structure set or not, the reference count of the string table equal to / below / above its item count, relationship ids with non-ASCII letters, shared strings that carry rich runs / phonetic data, at three anchors incl. the last row/column, with an ignorable record of 7 kinds and 6 payload lengths (1-, 2- and 3-byte length prefixes, 1- and 2-byte ids) at every gap, blank cells and optional pre-sheet-data blocks; shared-string tables of 65535..66000 strings with indices above 16 bits; all choice vectors with <=2 (thorough 3) deviations; worksheet_range and worksheet_range_ref compared with the model and with each other.",
    "Trusted: gen/xlsb.rs (MS-XLSB) and the value model.",
    "DESIGN.md §2 C03"),
  "C12": ("model_checking", "E1-choice",
    "stateless choice-tree exploration: every legal set of CONTINUE cut points x per-segment 8/16-bit packing of small shared-string tables on the real reader",
-   "single-, two- and three-string tables (all texts of <=3 characters + 4-character texts without the astral character; thorough: all of <=4 + 5-character texts without it) over {ASCII, Latin-1, C1 control U+0091, BMP-only, astral} characters with rich-run / ExtRst variants are serialised under every subset of legal cut points and every packing of compressible segments (full product on small tables, <=2/3 deviations otherwise), plus 9000- and 32767-character strings cut at the 8224-byte limit, an SST record holding only its header, tables of 255..66000 strings; LABEL, FORMULA+STRING (3 or 300 characters) and sheet names in both packings; every cell referencing every string is compared.",
+   "single-, two- and three-string tables (all texts of <=3 characters + 4-character texts without the astral character; thorough: all of <=4 + 5-character texts without it) over {ASCII, Latin-1, C1 control U+0091, BMP-only, astral} characters with rich-run / ExtRst variants are serialised under every subset of legal cut points and every packing of compressible segments (full product on small tables, <=2/3 deviations otherwise), plus 9000- and 32767-character strings cut at the 8224-byte limit, an SST record holding only its header, tables of 255..66000 strings; LABEL, FORMULA+STRING (3 or 300 characters; directly or behind a SHRFMLA / ARRAY / TABLE record) and sheet names in both packings; every cell referencing every string is compared.",
    "Trusted: the SST serialiser in gen/biff8.rs; cuts inside headers / surrogate pairs are not generated.",
    "DESIGN.md §2 C12"),
  "C13": ("model_checking", "E1-choice",
@@ -82,7 +82,7 @@ CHECKS = {
    "DESIGN.md §2 C13"),
  "C01": ("model_checking", "E1-choice",
    "stateless choice-tree exploration of logical xlsx sheets x legal physical encodings on the real reader vs a map model",
-   "Every sheet with <=2 (thorough 3) cells of 29 kinds, optionally in a 1904 workbook, (incl. numbers under General / date / 0.00 styles, formulas caching the empty string or text with XML references) in a 3x4 window at four anchors (A1 .. XFD1048576 corner) is written under every choice vector with <=2 (thorough 3) deviations over cell kinds and 25 variation points (XML comments, optional neighbours of sheetData, true/false booleans, sst count below the item count, relationship ids in shuffled order, a stale dimension, General xf entries without numFmtId, indented XML, XL/ folder case, applyNumberFormat 1/absent/0, Target before Type in .rels, rows that never carry r, formula and value text split by CDATA and comments, inline strings followed by phonetic runs, ...), plus the full encoding product on representative sheets; each file is read through worksheet_range and worksheet_range_ref and compared cell-by-cell and bound-by-bound with the model.",
+   "Every sheet with <=2 (thorough 3) cells of 31 kinds, optionally in a 1904 workbook, (incl. numbers under General / date / 0.00 styles, formulas caching the empty string or text with XML references, inline and formula strings with leading / trailing white space) in a 3x4 window at four anchors (A1 .. XFD1048576 corner) is written under every choice vector with <=2 (thorough 3) deviations over cell kinds and 26 variation points (cell attributes in the order t s r, XML comments, optional neighbours of sheetData, true/false booleans, sst count below the item count, relationship ids in shuffled order, a stale dimension, General xf entries without numFmtId, indented XML, XL/ folder case, applyNumberFormat 1/absent/0, Target before Type in .rels, rows that never carry r, formula and value text split by CDATA and comments, inline strings followed by phonetic runs, ...), plus the full encoding product on representative sheets; each file is read through worksheet_range and worksheet_range_ref and compared cell-by-cell and bound-by-bound with the model.",
    "Trusted: the independent writer gen/xlsx.rs (ECMA-376) and the map model; inputs outside the alphabet (relationship prefixes other than r:, extLst children, _xHHHH_ escapes) are not generated.",
    "DESIGN.md §2 C01"),
  "C04": ("model_checking", "E1-choice",
@@ -97,7 +97,7 @@ CHECKS = {
    "DESIGN.md §2 C05"),
  "C09": ("model_checking", "E1-choice",
    "stateless choice-tree exploration (full product / deviation-bounded) of ranges x header configs x target shapes on the real RangeDeserializer vs a reference row mapper",
-   "Every small range (origin, 0-3 rows, 1-3 columns, 15 cell values incl. two error kinds, the strings true / False, the zero-length string, an integer beyond 2^53 and a fraction below one), every header mode (none / all, each also reached through another builder setting / every ordered custom selection incl. names padded with blanks, tabs, newlines or no-break spaces and unknown names / struct field names) and 14 target record shapes (incl. enum fields) are enumerated; every item, every size_hint before each next() and every CellError kind and absolute position is compared with a reference mapper. Full product on small jobs, all choice vectors with <=2 (thorough 3) deviations from the default on the rest.",
+   "Every small range (origin, 0-3 rows, 1-3 columns, 15 cell values incl. two error kinds, the strings true / False, the zero-length string, an integer beyond 2^53 and a fraction below one), every header mode (none / all, each also reached through another builder setting / every ordered custom selection incl. the empty one, names padded with blanks, tabs, newlines or no-break spaces and unknown names / struct field names) and 14 target record shapes (incl. enum fields) are enumerated; every item, the items also when the iterator is advanced by nth(0), nth(1) or collect(), every size_hint before each next() and every CellError kind and absolute position is compared with a reference mapper. Full product on small jobs, all choice vectors with <=2 (thorough 3) deviations from the default on the rest.",
    "Trusted: the reference conversions in props/c09.rs; serde's derive. Custom error messages are not compared.",
    "DESIGN.md §2 C09"),
  "C11": ("model_checking", "sweep",
